@@ -96,6 +96,31 @@ def c07(chk):
     md = run_groups_model(groups_d)
     chk.evaluations += len(cases)
     chk.notes['dual_model_runs'] = sum(len(c.x) for c in cases)
+    # Rounding yardstick: where the C++ misses the exact value by more than the tolerance, the IEEE-double instance of the model
+    # (the same operation sequence) is run on that case; a deviation of the C++ within 32x the deviation of that instance is the
+    # rounding of the algorithm at this scale (e.g. septic pieces of 0.2 ms), not a wrong gradient.  It is counted, not reported.
+    def far(va, vm, tol):
+        if any(isinstance(x, float) for x in va):
+            return True
+        return not vec_close(va, vm, tol)[0]
+    suspects = [i for i, c in enumerate(cases) if 'cost' in cpp[f'{i}.v'] and
+                (far(fv(cpp[f'{i}.v']['cost']), fv(mq[f'{i}.v']['cost']), GTOL[c.order]) or
+                 far(fv(cpp[f'{i}.v']['grad']), fv(mq[f'{i}.v']['grad']), GTOL[c.order]))]
+    mf = run_groups_model([cases[i].setup_lines(i, 'F') + [cases[i].eval_line(f'{i}.v', 'F')] for i in suspects]) if suspects else {}
+    chk.notes['float_yardstick_runs'] = len(suspects)
+
+    def rounding_limited(i, key, idxs, va, vex):
+        """True if the C++ deviates from the exact values by at most 32x what the IEEE-double model instance does"""
+        r = mf.get(f'{i}.v')
+        if not r or key not in r:
+            return False
+        vf = fv(r[key])
+        if any(isinstance(x, float) for x in vf) or any(isinstance(va[q], float) for q in idxs):
+            return False
+        dev_f = max(abs(vf[q] - vex[q]) for q in idxs)
+        dev_a = max(abs(va[q] - vex[q]) for q in idxs)
+        return dev_a <= 32 * dev_f
+
     for i, c in enumerate(cases):
         cells(chk, c, 'wp' if c.spec['useWp'] else 'nowp', 'rho>0' if c.rho > 0 else 'rho=0')
         a, m = cpp[f'{i}.v'], mq[f'{i}.v']
@@ -105,11 +130,17 @@ def c07(chk):
         # correspondence: cost and gradient of the model
         ca, cm = fv(a['cost'])[0], fv(m['cost'])[0]
         if isinstance(ca, float) or abs(ca - cm) > tol * max(Fr(1), abs(cm)):
-            chk.mismatch('cost differs from the model', c.describe(), {'impl': float(ca), 'model': float(cm)})
+            if rounding_limited(i, 'cost', [0], [ca], [cm]):
+                chk.count('rounding-limited (IEEE instance of the model deviates as much): cost')
+            else:
+                chk.mismatch('cost differs from the model', c.describe(), {'impl': float(ca), 'model': float(cm)})
         ok, err = vec_close(fv(a['grad']), fv(m['grad']), tol)
         chk.disc(f'{c.order}/grad_vs_model', err)
         if not ok:
-            chk.mismatch(f'gradient differs from the model (scaled error {err:.3e})', c.describe())
+            if rounding_limited(i, 'grad', range(len(c.x)), fv(a['grad']), fv(m['grad'])):
+                chk.count('rounding-limited (IEEE instance of the model deviates as much): gradient')
+            else:
+                chk.mismatch(f'gradient differs from the model (scaled error {err:.3e})', c.describe())
         # oracle: exact gradient of the returned cost from the dual-number model
         exact = [du_part(parse_val(md[f'{i}.t{t}']['cost'][0])) for t in range(len(c.x))]
         gm = fv(m['grad'])
@@ -124,7 +155,9 @@ def c07(chk):
                 continue
             ok, err = vec_close([ga[q] for q in rg], [exact[q] for q in rg], tol)
             chk.disc(f'{c.order}/grad_{name}', err)
-            if not ok:
+            if not ok and rounding_limited(i, 'grad', rg, ga, exact):
+                chk.count(f'rounding-limited (IEEE instance of the model deviates as much): {name} block')
+            elif not ok:
                 q = max(rg, key=lambda q: abs(ga[q] - exact[q]) if not isinstance(ga[q], float) else 1e300)
                 chk.violation(f'optimizer gradient ({name} block) is not the gradient of the returned cost', c.describe(),
                               {'component': q, 'got': float(ga[q]), 'exact': float(exact[q]), 'scaled_error': err})
@@ -346,7 +379,7 @@ def c09_reconfig(chk):
         plan = []
         cur = copy.copy(c)
         for st in range(rng.randint(6, 14)):
-            op = rng.choice(['flip', 'flip', 'flags', 'maps', 'init', 'dim', 'dim', 'guess'])
+            op = rng.choice(['flip', 'flip', 'flags', 'maps', 'init', 'dim', 'dim', 'guess', 'relocate'])
             rid = f'r{sq}.{st}'
             if op == 'flip':
                 cur = copy.copy(cur); cur.flags = cur.flags ^ (1 << rng.randrange(8))
@@ -363,6 +396,17 @@ def c09_reconfig(chk):
                 t = ol.rand_case(rng, o, d, nn, flags=cur.flags, tmType=cur.tmType, smType=cur.smType)
                 cur = copy.copy(cur); cur.n = nn; cur.h, cur.P, cur.bc, cur.t0 = t.h, t.P, t.bc, t.t0
                 g.append(cur.setup_lines(rid, 'Q')[2].replace(f'{rid}.c', rid))
+            elif op == 'relocate':
+                # the optimizer is moved to (or copied to) another object and used from there: the configuration travels with it
+                cur = copy.copy(cur)
+                new_slot = cur.slot + 1 if cur.slot % 2 == 0 else cur.slot - 1
+                how = rng.choice(['opt_move', 'opt_move', 'opt_copy'])
+                g.append(f'{rid} Q {how} {cur.slot} {new_slot}')
+                if how == 'opt_copy':
+                    g.append(f'{rid}.d Q opt_destroy {cur.slot}')
+                cur.slot = new_slot
+                chk.count('reconfig: ' + how)
+                g.append(f'{rid}.q Q opt_guess {cur.slot}'); plan.append((rid + '.q', 'guess', copy.copy(cur)))
             elif op == 'dim':
                 g.append(f'{rid} Q opt_dim {cur.slot}'); plan.append((rid, 'dim', copy.copy(cur)))
             else:
@@ -559,7 +603,7 @@ def c15(chk):
             ws_exists[s] = True
 
         for st in range(rng.randint(6, 14)):
-            op = rng.choice(['copy', 'assign', 'assign', 'selfassign', 'maps', 'mutate', 'destroy', 'eval', 'eval', 'ptrs'])
+            op = rng.choice(['copy', 'assign', 'assign', 'selfassign', 'maps', 'mutate', 'destroy', 'eval', 'eval', 'ptrs', 'move'])
             if len(live) < 2 and op in ('assign', 'destroy'):
                 op = 'copy'                    # assignments and destructions need a second object
             s = rng.choice(live)
@@ -571,6 +615,25 @@ def c15(chk):
                 state[t] = copy.copy(state[s]); ws_exists[t] = ws_exists[s]; live.append(t)
                 g.append(f'{rid}.{st}.p X opt_ptrs {t} {s}'); plan.append((f'{rid}.{st}.p', 'ptrs', (state[t], ws_exists[t], True), list(g)))
                 ev(t, 'c')
+            elif op == 'move':
+                # move construction into a fresh slot; the moved-from object is destroyed at once. Before it, the source is put on
+                # a random mix of own/user maps (a move constructor must re-bind default maps and keep user maps)
+                free = [u for u in slots if u not in live]
+                if not free:
+                    continue
+                t = rng.choice(free)
+                cs = copy.copy(state[s]); cs.tmInst = rng.choice([0, 1]); cs.smInst = rng.choice([0, 1, 2])
+                state[s] = cs
+                g.append(f'{rid}.{st}.m Q opt_maps {s} {cs.tmInst} {cs.smInst}')
+                g.append(f'{rid}.{st} Q opt_move {s} {t}')
+                chk.count('move construction')
+                state[t] = cs; ws_exists[t] = False
+                live.remove(s); del state[s]; live.append(t)
+                g.append(f'{rid}.{st}.p X opt_ptrs {t} {t}'); plan.append((f'{rid}.{st}.p', 'ptrs', (state[t], 'any', False), list(g)))
+                ev(t, 'v')
+                # re-applying the same flags must not change anything
+                g.append(f'{rid}.{st}.f Q opt_flags {t} {state[t].flags}')
+                ev(t, 'w')
             elif op == 'assign':
                 t = rng.choice(live)
                 if t == s:
@@ -636,7 +699,7 @@ def c15(chk):
                               dict(tail, **cc.describe()), {'cost': float(ca) if not isinstance(ca, float) else str(ca), 'expected': float(cm)})
         else:
             cc, wsx, has_src = info
-            chk.cell('ptrs', cc.tmInst, cc.smInst, wsx)
+            chk.cell('ptrs', cc.tmInst, cc.smInst, str(wsx))
             if a.get('ptrs', ['nohook'])[0] == 'nohook':
                 chk.count('ptrs_nohook'); continue
             own_tm, own_sm, user_tm, user_sm, has_ws, shared = (int(x) for x in a['ptrs'])
@@ -651,7 +714,7 @@ def c15(chk):
                                                             'user_time_map': user_tm, 'user_spatial_map': user_sm})
             if shared:
                 chk.violation('copy shares the built-in workspace with its source', dict(tail, **cc.describe()))
-            if has_ws != (1 if wsx else 0):
+            if wsx != 'any' and has_ws != (1 if wsx else 0):
                 chk.violation('built-in workspace presence not preserved by copy/assignment', dict(tail, **cc.describe()),
                               {'has_workspace': has_ws, 'expected': wsx})
     # copies of spline objects: covered through PPoly copy/assign histories (C11 machinery) and the spline slots
@@ -805,9 +868,43 @@ def c17(chk):
         for fn in ('toTime', 'toTau'):
             lines.append(f'{rid} Q tm 1 0 {fn} {hx(t)}'); plan.append(('ident', t)); rid += 1
         lines.append(f'{rid} Q tm 1 0 backward {hx(t)} {hx(t)} {hx(0.75)}'); plan.append(('identb', 0.75)); rid += 1
+    # statelessness: one persistent map object answers every request again, in other orders (reversed; each duration next to its
+    # reciprocal; toTime / toTau / backward interleaved); the answers must be bit-identical to those of fresh objects
+    base_n = len(lines)
+    replay = []
+    recip = [T for T in Ts if T > 0 and 1.0 / T != T and 1.0 / (1.0 / T) == T][:400] + [2.0, 0.5, 0.25, 4.0, 10.0, 0.1, 0.2, 5.0, 8.0, 0.125]
+    for T in recip:
+        replay.append(('toTau', (T,))); replay.append(('toTau', (1.0 / T,))); replay.append(('toTau', (T,)))
+    for q in range(base_n - 1, -1, -1):
+        kind, info = plan[q]
+        if kind == 'toTime': replay.append(('toTime', (info,)))
+        elif kind == 'toTau': replay.append(('toTau', (info,)))
+        elif kind == 'backward': replay.append(('backward', (info[0], 0.0, info[1])))
+    mixed = list(replay)
+    rng.shuffle(mixed)
+    replay += mixed[:2000]
+    fresh_rid = {}
+    for fn, args in replay:
+        key = (fn,) + tuple(hx(a_) for a_ in args)
+        if key not in fresh_rid:
+            lines.append(f'{rid} X tm 0 0 {fn} {" ".join(hx(a_) for a_ in args)}'); plan.append(('fresh', key)); fresh_rid[key] = rid; rid += 1
+    for fn, args in replay:
+        key = (fn,) + tuple(hx(a_) for a_ in args)
+        lines.append(f'{rid} X tm 0 7 {fn} {" ".join(hx(a_) for a_ in args)}'); plan.append(('persistent', key)); rid += 1
     cpp, _ = runner.run_harness(harness(), lines)
     mod = runner.run_model_sharded(lines, 8)
     chk.evaluations += len(lines)
+    bad_state = 0
+    for q in range(base_n, len(lines)):
+        kind, key = plan[q]
+        if kind == 'persistent':
+            chk.count('persistent-object replay')
+            if cpp[str(q)]['r'] != cpp[str(fresh_rid[key])]['r'] and bad_state < 5:
+                bad_state += 1
+                chk.violation('a time map gives a different answer to the same request depending on the calls made before (state carried between calls)',
+                              {'function': key[0], 'arguments_hex': list(key[1:]), 'previous_requests': [l.split(' ', 2)[2] for l in lines[max(base_n, q - 3):q]]},
+                              {'persistent_object': cpp[str(q)]['r'], 'fresh_object': cpp[str(fresh_rid[key])]['r']})
+    plan = plan[:base_n]
     toT = {}
     for q, (kind, info) in enumerate(plan):
         a, m = cpp[str(q)], mod[str(q)]
